@@ -4,23 +4,39 @@ From TM Require Import Base Frame Pdu RtuCodec Framed Client Server BaseLemmas.
 
 (* an event that ends serve / serve_until *)
 Definition stops (e : accept_ev) : bool :=
-  match e with AConn (SetupErr _) | AAcceptErr _ | AAbort => true | _ => false end.
+  match e with AConn (SetupErr _) | AConn SetupHang | AAcceptErr _ | AAbort => true | _ => false end.
+Definition is_abort (e : accept_ev) : bool := match e with AAbort => true | _ => false end.
 Definition script_of (e : accept_ev) : list (list revt) :=
   match e with AConn (SetupService q) => [q] | _ => [] end.
-Definition result_of (e : accept_ev) : serve_result :=
-  match e with AConn (SetupErr k) | AAcceptErr k => SrvErr k | AAbort => SrvAborted | _ => SrvListening end.
+(* [post]: what happens after e -- it matters only while a connection setup hangs: then the abort signal still ends serving *)
+Definition result_of (e : accept_ev) (post : list accept_ev) : serve_result :=
+  match e with
+  | AConn (SetupErr k) | AAcceptErr k => SrvErr k
+  | AAbort => SrvAborted
+  | AConn SetupHang => if existsb is_abort post then SrvAborted else SrvListening
+  | _ => SrvListening
+  end.
 
 (* events before the first stopping event are all handled: a task per service, nothing for a rejected
    connection; the first stopping event decides the result; nothing after it is looked at *)
 Theorem serve_split : forall pre e post,
   forallb (fun x => negb (stops x)) pre = true -> stops e = true ->
-  serve (pre ++ e :: post) = (flat_map script_of pre, result_of e).
+  serve (pre ++ e :: post) = (flat_map script_of pre, result_of e post).
 Proof.
   induction pre as [|x pre IH]; intros e post Hpre He.
-  - cbn [app flat_map]. destruct e as [[q| |k]|k|]; try discriminate; reflexivity.
+  - cbn [app flat_map]. destruct e as [[q| |k|]|k|]; try discriminate; reflexivity.
   - cbn [forallb] in Hpre. apply andb_prop in Hpre. destruct Hpre as [Hx Hpre].
-    cbn [app flat_map]. destruct x as [[q| |k]|k|]; try discriminate; cbn [serve script_of app];
+    cbn [app flat_map]. destruct x as [[q| |k|]|k|]; try discriminate; cbn [serve script_of app];
       rewrite (IH e post Hpre He); reflexivity.
+Qed.
+
+(* the abort signal is honoured even while the accept loop is suspended in a connection setup that never completes *)
+Theorem abort_during_hanging_setup : forall pre post1 post2,
+  forallb (fun x => negb (stops x)) pre = true ->
+  serve (pre ++ AConn SetupHang :: post1 ++ AAbort :: post2) = (flat_map script_of pre, SrvAborted).
+Proof.
+  intros pre post1 post2 Hpre. rewrite (serve_split pre (AConn SetupHang) (post1 ++ AAbort :: post2) Hpre eq_refl).
+  cbn [result_of]. rewrite existsb_app. cbn [existsb is_abort]. rewrite Bool.orb_true_r. reflexivity.
 Qed.
 
 Theorem serve_keeps_listening : forall evs,
@@ -28,7 +44,7 @@ Theorem serve_keeps_listening : forall evs,
 Proof.
   induction evs as [|x evs IH]; intros H; [reflexivity|].
   cbn [forallb] in H. apply andb_prop in H. destruct H as [Hx H].
-  destruct x as [[q| |k]|k|]; try discriminate; cbn [serve flat_map script_of app]; rewrite (IH H); reflexivity.
+  destruct x as [[q| |k|]|k|]; try discriminate; cbn [serve flat_map script_of app]; rewrite (IH H); reflexivity.
 Qed.
 
 (* a connection's error reports depend on that connection's own script only: the total is the sum *)
@@ -84,5 +100,5 @@ Proof.
   intros evs H. rewrite (serve_keeps_listening evs H). cbn [fst].
   induction evs as [|x evs IH]; [reflexivity|].
   cbn [forallb] in H. apply andb_prop in H. destruct H as [Hx H].
-  destruct x as [[q| |k]|k|]; cbn [flat_map script_of app filter length]; rewrite ?(IH H); try reflexivity; discriminate.
+  destruct x as [[q| |k|]|k|]; cbn [flat_map script_of app filter length]; rewrite ?(IH H); try reflexivity; discriminate.
 Qed.
